@@ -2640,6 +2640,13 @@ class const_subarray<T, 0, ElementPtr, Layout>
  private:
 	constexpr auto home_aux_() const {return cursor(this->base_, this->strides());}
 
+	// the element as a range of one, like array_ref<T, 0>::elements(); subarray<T, 0>'s assignments and swap are written with it
+	constexpr auto elements_layout_() const {return multi::layout_t<1>(multi::extensions_t<1>{multi::iextension{this->num_elements()}});}
+	constexpr auto elements_aux_() const {return subarray<T, 1, ElementPtr>(elements_layout_(), this->base_);}
+
+ public:
+	constexpr auto elements() const& {return subarray<T, 1, typename const_subarray::element_const_ptr>(elements_layout_(), this->base_);}
+
  public:
 	constexpr auto home() const& -> const_cursor {return home_aux_();}
 
